@@ -25,18 +25,24 @@
                   "fl_commit"  (deferred) COMMIT TRANSACTION
      Close        Flush (then index creation and DB.Close, which touch no shared state)
 
-   LockScope = "code" is the repository as pinned.  LockScope = "fix" is the proposed
-   repair (proposed_fixes/C35-flush-under-lock.diff): the same steps, but the mutex is
-   taken by InsertData / Flush and kept until the flush they perform has committed.
+   LockScope = "fix" is the repository as it is now (commit "data recorder holds its
+   mutex across the whole flush"): the same gate-to-gate steps, but InsertData and Flush
+   take the mutex first and keep it until the flush they perform has committed.  A
+   goroutine let through the "ins" gate, or through the harness's own "call" gate in
+   front of Flush()/Close(), then WAITS for the mutex ("ins_wait"/"fl_wait"); taking it
+   is a silent step that happens as soon as the mutex is free and before the controller
+   lets anybody else through a gate (Quiet) — exactly what the gated harness does.
+   LockScope = "code" is the repository before that commit (Flush without the mutex).
+   It is kept as a negative control only: TLC must refute AllPersistedOnce on it (W9).
 
    Processes: inserters (PerIns InsertData calls each, table and location chosen
    freely), explicit flushers (PerFl Flush calls), and Close after all of them have
    returned (the statement speaks of entries inserted before the recorder is closed).
 
-   The statement (RecorderAbs) is checked as AllPersistedOnce / NoCrash / the
-   refinement Abs!ASpec.  On LockScope = "code" TLC refutes AllPersistedOnce — that is
-   hypothesis W9, which only a replay on the real recorder can confirm — and proves
-   the weaker facts the code does guarantee (OnlyRacesHurt, NeverTwice, LocInternOK).   *)
+   The statement (RecorderAbs) is checked as AllPersistedOnce / NoCrash / termination /
+   the refinement Abs!ASpec.  On LockScope = "code" TLC refutes AllPersistedOnce (W9,
+   confirmed on the real recorder before the repair) and proves the weaker facts that
+   code did guarantee (OnlyRacesHurt, NeverTwice, LocInternOK).                        *)
 EXTENDS Integers, Sequences, FiniteSets, TLC, Json
 
 CONSTANTS InsSeq,      \* sequence of inserter names
@@ -48,7 +54,9 @@ CONSTANTS InsSeq,      \* sequence of inserter names
           BatchSizes,  \* candidate batch thresholds (chosen in Init)
           PerIns,      \* InsertData calls per inserter
           PerFl,       \* Flush calls per explicit flusher
-          LockScope    \* "code" | "fix"
+          LockScope,   \* "code" | "fix"
+          SigMode      \* "fix" only, what tells two schedules apart besides their final state: "none" |
+                       \* "label" (where the holder's flush was when a call was let in to wait) | "proc" (and whose call)
 
 Inserters == {InsSeq[i] : i \in DOMAIN InsSeq}
 Locs == {LocSeq[i] : i \in DOMAIN LocSeq}
@@ -79,63 +87,84 @@ VARIABLES pc,         \* process -> "idle" | "fl_check" | … | "closed" | "cras
           cur,        \* process -> table being flushed
           snap,       \* process -> rest of the range snapshot of cur's entries
           crashed,    \* "none" or the process whose goroutine panicked (the program dies)
+          pend,       \* process -> entry its InsertData is about to append ("fix": while it waits for the mutex)
           left,       \* process -> API calls still to make
           inserted,   \* entries whose InsertData has begun
           racy,       \* an InsertData or a Flush ran while another process was inside a flush
+          sig,        \* "fix": {<<p, where the holder was>>} for every call let through a gate while the mutex was held
           hist        \* the schedule so far (not part of the VIEW)
-mvars == <<pc, mu, entries, locEntries, locInfo, count, batch, txn, dbRows, dbLoc, todo, cur, snap, crashed>>
-vars  == <<mvars, left, inserted, racy, hist>>
+mvars == <<pc, mu, entries, locEntries, locInfo, count, batch, txn, dbRows, dbLoc, todo, cur, snap, crashed, pend>>
+vars  == <<mvars, left, inserted, racy, sig, hist>>
 (* a panic ends the program: what the other goroutines were doing no longer matters *)
-View  == IF crashed = "none" THEN <<mvars, left, inserted, racy>> ELSE <<crashed, batch, racy>>
+View  == IF crashed = "none" THEN <<mvars, left, inserted, racy, sig>> ELSE <<crashed, batch, racy>>
 
 Abs == INSTANCE RecorderAbs WITH ATables <- Tables, ains <- inserted,
           aclosed <- (pc[Closer] = "closed"),
           arows <- (IF pc[Closer] = "closed" THEN dbRows ELSE [t \in Tables |-> <<>>]),
           alocs <- (IF pc[Closer] = "closed" THEN dbLoc ELSE <<>>)
 
+NoEntry == [id |-> 0, tab |-> "", loc |-> ""]
 MInit(b) == /\ pc = [p \in Procs |-> "idle"] /\ mu = "free"
             /\ entries = [t \in Tables |-> <<>>] /\ locEntries = <<>>
             /\ locInfo = [s \in Locs |-> 0] /\ count = 0 /\ batch = b /\ txn = FALSE
             /\ dbRows = [t \in Tables |-> <<>>] /\ dbLoc = <<>>
             /\ todo = [p \in Procs |-> {}] /\ cur = [p \in Procs |-> LocT] /\ snap = [p \in Procs |-> <<>>]
-            /\ crashed = "none"
+            /\ crashed = "none" /\ pend = [p \in Procs |-> NoEntry]
 (* the same as an action (a fresh recorder), for trace validation of many runs in one file *)
 MReset(b) == /\ pc' = [p \in Procs |-> "idle"] /\ mu' = "free"
              /\ entries' = [t \in Tables |-> <<>>] /\ locEntries' = <<>>
              /\ locInfo' = [s \in Locs |-> 0] /\ count' = 0 /\ batch' = b /\ txn' = FALSE
              /\ dbRows' = [t \in Tables |-> <<>>] /\ dbLoc' = <<>>
              /\ todo' = [p \in Procs |-> {}] /\ cur' = [p \in Procs |-> LocT] /\ snap' = [p \in Procs |-> <<>>]
-             /\ crashed' = "none"
+             /\ crashed' = "none" /\ pend' = [p \in Procs |-> NoEntry]
 Init == /\ \E b \in BatchSizes : MInit(b)
         /\ left = [p \in Procs |-> IF p \in Inserters THEN PerIns ELSE IF p \in Flushers THEN PerFl ELSE 1]
-        /\ inserted = {} /\ racy = FALSE /\ hist = <<>>
+        /\ inserted = {} /\ racy = FALSE /\ sig = {} /\ hist = <<>>
 
 Home(p) == IF p = Closer THEN "closed" ELSE "idle"
 Fix == LockScope = "fix"
 (* the mutex as seen between steps: in "code" no step ends with the mutex held *)
-CanTake(p) == ~Fix \/ mu = "free"
 Holds(p)   == ~Fix \/ mu = p
-Keep(p)    == IF Fix THEN p ELSE "free"
 AfterLoop(td) == IF td = {} THEN "fl_loc" ELSE "fl_table"
 Goto(p, l) == pc' = [pc EXCEPT ![p] = l]
 
-(* ---- InsertData *)
+(* ---- InsertData, "code": the whole critical section is one step *)
 Ins(p, e) ==
-    /\ pc[p] = "idle" /\ CanTake(p) /\ e.tab \in Tables
+    /\ ~Fix /\ pc[p] = "idle" /\ e.tab \in Tables
     /\ entries' = [entries EXCEPT ![e.tab] = Append(@, e)]
     /\ count' = count + 1
-    /\ IF count + 1 >= batch
-         THEN Goto(p, "fl_check") /\ mu' = Keep(p)      \* Unlock; Flush()   ("fix": flush with the lock held)
-         ELSE Goto(p, "idle") /\ mu' = "free"
-    /\ UNCHANGED <<locEntries, locInfo, batch, txn, dbRows, dbLoc, todo, cur, snap, crashed>>
+    /\ Goto(p, IF count + 1 >= batch THEN "fl_check" ELSE "idle")      \* Unlock; Flush()
+    /\ UNCHANGED <<mu, locEntries, locInfo, batch, txn, dbRows, dbLoc, todo, cur, snap, crashed, pend>>
 
-(* ---- Flush: from "idle" it is an explicit Flush()/Close() call, from "fl_check" the call made by InsertData *)
+(* ---- "fix": through the gate, wait for the mutex, then the critical section (and the flush) with the mutex held *)
+RelIns(p, e) ==
+    /\ Fix /\ pc[p] = "idle" /\ e.tab \in Tables
+    /\ Goto(p, "ins_wait") /\ pend' = [pend EXCEPT ![p] = e]
+    /\ UNCHANGED <<mu, entries, locEntries, locInfo, count, batch, txn, dbRows, dbLoc, todo, cur, snap, crashed>>
+AcqIns(p) ==
+    /\ Fix /\ pc[p] = "ins_wait" /\ mu = "free"
+    /\ entries' = [entries EXCEPT ![pend[p].tab] = Append(@, pend[p])]
+    /\ count' = count + 1
+    /\ IF count + 1 >= batch THEN Goto(p, "fl_check") /\ mu' = p        \* flushLocked(), parked at its first gate
+                             ELSE Goto(p, "idle") /\ mu' = "free"
+    /\ UNCHANGED <<locEntries, locInfo, batch, txn, dbRows, dbLoc, todo, cur, snap, crashed, pend>>
+(* Flush() / Close(): the harness gate "call", then Lock *)
+Call(p) ==
+    /\ Fix /\ pc[p] = "idle" /\ Goto(p, "fl_wait")
+    /\ UNCHANGED <<mu, entries, locEntries, locInfo, count, batch, txn, dbRows, dbLoc, todo, cur, snap, crashed, pend>>
+AcqFl(p) ==
+    /\ Fix /\ pc[p] = "fl_wait" /\ mu = "free" /\ mu' = p /\ Goto(p, "fl_check")
+    /\ UNCHANGED <<entries, locEntries, locInfo, count, batch, txn, dbRows, dbLoc, todo, cur, snap, crashed, pend>>
+(* nobody can take the mutex right now: every goroutine is parked at a gate, done, or blocked *)
+Quiet == ~\E p \in Procs : pc[p] \in {"ins_wait", "fl_wait"} /\ mu = "free"
+
+(* ---- Flush. "code": from "idle" it is an explicit Flush()/Close() call, from "fl_check" the call made by
+   InsertData.  "fix": always from "fl_check", with the mutex *)
 FlCheck(p) ==
-    /\ \/ pc[p] = "idle" /\ CanTake(p)
-       \/ pc[p] = "fl_check" /\ Holds(p)
+    /\ IF Fix THEN pc[p] = "fl_check" /\ mu = p ELSE pc[p] \in {"idle", "fl_check"}
     /\ IF count = 0 THEN Goto(p, Home(p)) /\ mu' = "free"
-                    ELSE Goto(p, "fl_begin") /\ mu' = Keep(p)
-    /\ UNCHANGED <<entries, locEntries, locInfo, count, batch, txn, dbRows, dbLoc, todo, cur, snap, crashed>>
+                    ELSE Goto(p, "fl_begin") /\ mu' = mu
+    /\ UNCHANGED <<entries, locEntries, locInfo, count, batch, txn, dbRows, dbLoc, todo, cur, snap, crashed, pend>>
 
 FlBegin(p) ==
     /\ pc[p] = "fl_begin" /\ Holds(p)
@@ -143,7 +172,7 @@ FlBegin(p) ==
                    /\ UNCHANGED <<txn, todo>>
               ELSE /\ txn' = TRUE /\ todo' = [todo EXCEPT ![p] = Tables] /\ Goto(p, "fl_table")
                    /\ UNCHANGED crashed
-    /\ UNCHANGED <<mu, entries, locEntries, locInfo, count, batch, dbRows, dbLoc, cur, snap>>
+    /\ UNCHANGED <<mu, entries, locEntries, locInfo, count, batch, dbRows, dbLoc, cur, snap, pend>>
 
 FlTable(p, t) ==
     /\ pc[p] = "fl_table" /\ Holds(p) /\ t \in todo[p]
@@ -151,7 +180,7 @@ FlTable(p, t) ==
     /\ IF entries[t] = <<>>
          THEN Goto(p, AfterLoop(todo[p] \ {t})) /\ UNCHANGED <<cur, snap>>
          ELSE Goto(p, "fl_row") /\ cur' = [cur EXCEPT ![p] = t] /\ snap' = [snap EXCEPT ![p] = entries[t]]
-    /\ UNCHANGED <<mu, entries, locEntries, locInfo, count, batch, txn, dbRows, dbLoc, crashed>>
+    /\ UNCHANGED <<mu, entries, locEntries, locInfo, count, batch, txn, dbRows, dbLoc, crashed, pend>>
 
 FlRow(p) ==
     /\ pc[p] = "fl_row" /\ Holds(p)
@@ -164,36 +193,36 @@ FlRow(p) ==
           /\ dbRows' = [dbRows EXCEPT ![cur[p]] = Append(@, <<e.id, lid>>)]
     /\ snap' = [snap EXCEPT ![p] = Tail(@)]
     /\ Goto(p, IF Len(snap[p]) = 1 THEN "fl_clear" ELSE "fl_row")
-    /\ UNCHANGED <<mu, entries, batch, txn, dbLoc, todo, cur, crashed>>
+    /\ UNCHANGED <<mu, entries, batch, txn, dbLoc, todo, cur, crashed, pend>>
 
 FlClear(p) ==
     /\ pc[p] = "fl_clear" /\ Holds(p)
     /\ entries' = [entries EXCEPT ![cur[p]] = <<>>]
     /\ Goto(p, AfterLoop(todo[p]))
-    /\ UNCHANGED <<mu, locEntries, locInfo, count, batch, txn, dbRows, dbLoc, todo, cur, snap, crashed>>
+    /\ UNCHANGED <<mu, locEntries, locInfo, count, batch, txn, dbRows, dbLoc, todo, cur, snap, crashed, pend>>
 
 FlLoc(p) ==
     /\ pc[p] = "fl_loc" /\ Holds(p)
     /\ IF locEntries = <<>> THEN Goto(p, "fl_reset") /\ UNCHANGED dbLoc
                             ELSE Goto(p, "fl_locclear") /\ dbLoc' = dbLoc \o locEntries
-    /\ UNCHANGED <<mu, entries, locEntries, locInfo, count, batch, txn, dbRows, todo, cur, snap, crashed>>
+    /\ UNCHANGED <<mu, entries, locEntries, locInfo, count, batch, txn, dbRows, todo, cur, snap, crashed, pend>>
 
 FlLocClear(p) ==
     /\ pc[p] = "fl_locclear" /\ Holds(p)
     /\ locEntries' = <<>> /\ Goto(p, "fl_reset")
-    /\ UNCHANGED <<mu, entries, locInfo, count, batch, txn, dbRows, dbLoc, todo, cur, snap, crashed>>
+    /\ UNCHANGED <<mu, entries, locInfo, count, batch, txn, dbRows, dbLoc, todo, cur, snap, crashed, pend>>
 
 FlReset(p) ==
     /\ pc[p] = "fl_reset" /\ Holds(p)
     /\ count' = 0 /\ Goto(p, "fl_commit")
-    /\ UNCHANGED <<mu, entries, locEntries, locInfo, batch, txn, dbRows, dbLoc, todo, cur, snap, crashed>>
+    /\ UNCHANGED <<mu, entries, locEntries, locInfo, batch, txn, dbRows, dbLoc, todo, cur, snap, crashed, pend>>
 
 FlCommit(p) ==
     /\ pc[p] = "fl_commit" /\ Holds(p)
     /\ IF txn THEN txn' = FALSE /\ Goto(p, Home(p)) /\ UNCHANGED crashed
               ELSE UNCHANGED txn /\ Goto(p, "crashed") /\ crashed' = p   \* "cannot commit - no transaction is active"
     /\ mu' = "free"
-    /\ UNCHANGED <<entries, locEntries, locInfo, count, batch, dbRows, dbLoc, todo, cur, snap>>
+    /\ UNCHANGED <<entries, locEntries, locInfo, count, batch, dbRows, dbLoc, todo, cur, snap, pend>>
 
 (* a step of process p at gate label lab (table tb where the label carries one) *)
 InFlushLoop(p) == pc[p] \in {"fl_table", "fl_row", "fl_clear", "fl_loc", "fl_locclear", "fl_reset"}
@@ -217,34 +246,53 @@ OthersInFlush(p) == \E q \in Procs \ {p} : InFlushLoop(q)
 OthersFlushing(p) == \E q \in Procs \ {p} : InFlushLoop(q) \/ pc[q] \in {"fl_begin", "fl_commit"}
 Log(p, lab, tb) == hist' = Append(hist, [p |-> p, l |-> lab, t |-> tb])
 
+HolderAt(p) == IF mu = "free" \/ SigMode = "none" THEN {}
+               ELSE IF SigMode = "label" THEN {pc[mu]} ELSE {<<p, pc[mu]>>}
+AllReturned == \A q \in Procs \ {Closer} : pc[q] = "idle" /\ left[q] = 0
+NewEntry(p, t, s) == [id |-> IdOf(p), tab |-> t, loc |-> s]
+
+(* "code" *)
 DoIns(p) == /\ p \in Inserters /\ left[p] > 0
             /\ \E t \in Tables, s \in LocChoice(IdOf(p)) :
-                 LET e == [id |-> IdOf(p), tab |-> t, loc |-> s] IN
+                 LET e == NewEntry(p, t, s) IN
                  /\ Ins(p, e) /\ inserted' = inserted \cup {e}
                  /\ hist' = Append(hist, [p |-> p, l |-> "ins", t |-> t, id |-> e.id, loc |-> s])
             /\ left' = [left EXCEPT ![p] = @ - 1]
-            /\ racy' = (racy \/ OthersInFlush(p))
-DoCall(p) == /\ pc[p] = "idle" /\ left[p] > 0
-             /\ \/ p \in Flushers
-                \/ p = Closer /\ \A q \in Procs \ {Closer} : pc[q] = "idle" /\ left[q] = 0
+            /\ racy' = (racy \/ OthersInFlush(p)) /\ UNCHANGED sig
+DoCall(p) == /\ ~Fix /\ pc[p] = "idle" /\ left[p] > 0
+             /\ (p \in Flushers \/ (p = Closer /\ AllReturned))
              /\ FlCheck(p) /\ left' = [left EXCEPT ![p] = @ - 1]
              /\ racy' = (racy \/ (count # 0 /\ OthersFlushing(p)))
-             /\ Log(p, "fl_check", "") /\ UNCHANGED inserted
+             /\ Log(p, "fl_check", "") /\ UNCHANGED <<inserted, sig>>
 DoAuto(p) == /\ pc[p] = "fl_check" /\ FlCheck(p)
              /\ racy' = (racy \/ (count # 0 /\ OthersFlushing(p)))
-             /\ Log(p, "fl_check", "") /\ UNCHANGED <<left, inserted>>
+             /\ Log(p, "fl_check", "") /\ UNCHANGED <<left, inserted, sig>>
 DoFlush(p) == /\ \E lab \in FlushLabels : \E tb \in (IF lab = "fl_table" THEN todo[p] ELSE {""}) :
                      FlushStep(p, lab, tb) /\ Log(p, lab, tb)
-              /\ UNCHANGED <<left, inserted, racy>>
+              /\ UNCHANGED <<left, inserted, racy, sig>>
+(* "fix": gate passages wait for Quiet; taking the mutex is silent *)
+FIns(p) == /\ p \in Inserters /\ left[p] > 0
+           /\ \E t \in Tables, s \in LocChoice(IdOf(p)) :
+                LET e == NewEntry(p, t, s) IN
+                /\ RelIns(p, e) /\ inserted' = inserted \cup {e}
+                /\ hist' = Append(hist, [p |-> p, l |-> "ins", t |-> t, id |-> e.id, loc |-> s])
+           /\ left' = [left EXCEPT ![p] = @ - 1]
+           /\ sig' = sig \cup HolderAt(p) /\ UNCHANGED racy
+FCall(p) == /\ left[p] > 0 /\ (p \in Flushers \/ (p = Closer /\ AllReturned))
+            /\ Call(p) /\ left' = [left EXCEPT ![p] = @ - 1] /\ Log(p, "call", "")
+            /\ sig' = sig \cup HolderAt(p) /\ UNCHANGED <<inserted, racy>>
+FSilent(p) == (AcqIns(p) \/ AcqFl(p)) /\ UNCHANGED <<left, inserted, racy, sig, hist>>
 
 Done == pc[Closer] = "closed" \/ ~Alive
-Next == \/ Alive /\ \E p \in Procs : DoIns(p) \/ DoCall(p) \/ DoAuto(p) \/ DoFlush(p)
+Next == \/ ~Fix /\ Alive /\ \E p \in Procs : DoIns(p) \/ DoCall(p) \/ DoAuto(p) \/ DoFlush(p)
+        \/ Fix /\ Alive /\ Quiet /\ \E p \in Procs : FIns(p) \/ FCall(p) \/ DoAuto(p) \/ DoFlush(p)
+        \/ Fix /\ Alive /\ \E p \in Procs : FSilent(p)
         \/ Done /\ UNCHANGED vars
 Spec == Init /\ [][Next]_vars /\ WF_vars(Next)
 
 -----------------------------------------------------------------------------
 TypeOK == /\ pc \in [Procs -> {"idle", "fl_check", "fl_begin", "fl_table", "fl_row", "fl_clear", "fl_loc",
-                               "fl_locclear", "fl_reset", "fl_commit", "closed", "crashed"}]
+                               "fl_locclear", "fl_reset", "fl_commit", "closed", "crashed", "ins_wait", "fl_wait"}]
           /\ mu \in Procs \cup {"free"} /\ count \in Nat /\ txn \in BOOLEAN
           /\ \A p \in Procs : todo[p] \subseteq AllT /\ cur[p] \in AllT
           /\ (~Fix => mu = "free")
@@ -270,7 +318,8 @@ LocInternOK ==
           /\ Abs!LocOneToOne(dbLoc \o locEntries)
           /\ {<<locInfo[s], s>> : s \in used} = Abs!Range(dbLoc \o locEntries)
 (* in "fix" a process inside a flush holds the mutex *)
-FlushHoldsLock == Fix => \A p \in Procs : (pc[p] \notin {"idle", "closed", "crashed"}) => mu = p
+FlushHoldsLock == Fix => /\ \A p \in Procs : (pc[p] \notin {"idle", "closed", "crashed", "ins_wait", "fl_wait"}) => mu = p
+                         /\ (mu # "free" => pc[mu] \notin {"idle", "closed", "crashed", "ins_wait", "fl_wait"})
 TxnOwner == txn => \E p \in Procs : InFlushLoop(p) \/ pc[p] = "fl_commit"
 
 (* ---- behaviour emission: one schedule per distinct final state (hist is outside the VIEW) *)
@@ -281,6 +330,6 @@ Outcome == IF ~Alive THEN "panic"
            ELSE IF Abs!Missing(inserted, Tables, dbRows) \ Unflushed # {} THEN "dropped"
            ELSE IF Abs!Missing(inserted, Tables, dbRows) # {} THEN "unflushed_at_close"
            ELSE "location"
-EmitCase == Done => PrintT(<<"CASE", ToJson([batch |-> batch, sched |-> hist, outcome |-> Outcome, racy |-> racy,
+EmitCase == Done => PrintT(<<"CASE", ToJson([batch |-> batch, sched |-> hist, outcome |-> Outcome, waits |-> Cardinality(sig),
                                              rows |-> dbRows, locs |-> dbLoc])>>)
 =============================================================================
